@@ -1073,6 +1073,7 @@ impl TypeSpace {
             ),
         ];
 
+        let (mut default_min, mut default_max) = (min, max);
         if let Some(format) = format {
             if let Some((_fmt, ty, nz_ty, imin, imax)) = formats
                 .iter()
@@ -1089,7 +1090,11 @@ impl TypeSpace {
                         .and_then(|m| m.default.as_ref())
                         .and_then(|v| v.as_f64())
                     {
-                        if default < *imin || default > *imax {
+                        if default < *imin
+                            || default > *imax
+                            || min.map_or(false, |fmin| default < fmin)
+                            || max.map_or(false, |fmax| default > fmax)
+                        {
                             return Err(Error::InvalidValue);
                         }
                     }
@@ -1108,6 +1113,9 @@ impl TypeSpace {
                 if max.is_none() {
                     max = Some(*imax);
                 }
+                // A default must also lie within the range of the format.
+                default_min = min.map(|fmin| fmin.max(*imin));
+                default_max = max.map(|fmax| fmax.min(*imax));
             }
         }
 
@@ -1118,7 +1126,7 @@ impl TypeSpace {
             // f64 here, but we're already constrained by the schemars
             // representation so ... it's probably the best we can do at
             // the moment.
-            match (default.as_f64(), min, max) {
+            match (default.as_f64(), default_min, default_max) {
                 (Some(_), None, None) => Some(()),
                 (Some(value), None, Some(fmax)) if value <= fmax => Some(()),
                 (Some(value), Some(fmin), None) if value >= fmin => Some(()),
